@@ -172,35 +172,37 @@ func snapshot(root string) map[string]SnapEntry {
 
 // ChildReq is what the parent asks the chrooted child to do.
 type ChildReq struct {
-	Op      string   `json:"op"` // unpack | pack
-	Root    string   `json:"root"`
-	Uid     int      `json:"uid"`
-	Dst     string   `json:"dst,omitempty"`   // inside the chroot
-	Slug    []byte   `json:"slug,omitempty"`  // tar.gz bytes (unpack)
-	FailAt  int      `json:"fail_at"`         // reader/writer fails at this byte offset (-1 = never)
-	Trunc   bool     `json:"trunc,omitempty"` // reader: EOF instead of error at FailAt
-	Src     string   `json:"src,omitempty"`   // pack: source spelling
-	Cwd     string   `json:"cwd,omitempty"`
-	Deref   bool     `json:"deref,omitempty"`
-	Ignore  bool     `json:"ignore,omitempty"`
-	Allow   []string `json:"allow,omitempty"`
-	Legacy  bool     `json:"legacy,omitempty"` // use the package-level Pack()
-	History []string `json:"history,omitempty"`
-	Flags   []bool   `json:"flags,omitempty"` // state of the shared default-rule flags before the call
-	PrePack string   `json:"pre_pack,omitempty"` // pack this directory first with the same Packer value
+	Op      string    `json:"op"` // unpack | pack
+	Root    string    `json:"root"`
+	Uid     int       `json:"uid"`
+	Dst     string    `json:"dst,omitempty"`   // inside the chroot
+	Slug    []byte    `json:"slug,omitempty"`  // tar.gz bytes (unpack)
+	FailAt  int       `json:"fail_at"`         // reader/writer fails at this byte offset (-1 = never)
+	Trunc   bool      `json:"trunc,omitempty"` // reader: EOF instead of error at FailAt
+	Src     string    `json:"src,omitempty"`   // pack: source spelling
+	Cwd     string    `json:"cwd,omitempty"`
+	Deref   bool      `json:"deref,omitempty"`
+	Ignore  bool      `json:"ignore,omitempty"`
+	Allow   []string  `json:"allow,omitempty"`
+	Legacy  bool      `json:"legacy,omitempty"` // use the package-level Pack()
+	History []string  `json:"history,omitempty"`
+	Flags   []bool    `json:"flags,omitempty"`    // state of the shared default-rule flags before the call
+	PrePack string    `json:"pre_pack,omitempty"` // pack this directory first with the same Packer value
+	Build   *BuildReq `json:"build,omitempty"`    // op "build": run the bundle builder (stream prepare)
 }
 
 type ChildResp struct {
-	Err       string   `json:"err,omitempty"`
-	Illegal   bool     `json:"illegal,omitempty"`
-	Panic     string   `json:"panic,omitempty"`
-	Slug      []byte   `json:"slug,omitempty"`
-	MetaFiles []string `json:"meta_files,omitempty"`
-	MetaSize  int64    `json:"meta_size,omitempty"`
-	HasMeta   bool     `json:"has_meta,omitempty"`
-	Timeout   bool     `json:"timeout,omitempty"`
-	Crashed   string   `json:"crashed,omitempty"`
-	FlagsOut  []bool   `json:"flags_out,omitempty"`
+	Err       string     `json:"err,omitempty"`
+	Illegal   bool       `json:"illegal,omitempty"`
+	Panic     string     `json:"panic,omitempty"`
+	Slug      []byte     `json:"slug,omitempty"`
+	MetaFiles []string   `json:"meta_files,omitempty"`
+	MetaSize  int64      `json:"meta_size,omitempty"`
+	HasMeta   bool       `json:"has_meta,omitempty"`
+	Timeout   bool       `json:"timeout,omitempty"`
+	Crashed   string     `json:"crashed,omitempty"`
+	FlagsOut  []bool     `json:"flags_out,omitempty"`
+	Build     *BuildResp `json:"build,omitempty"`
 }
 
 // runChild spawns this binary as "child" with the request on stdin.
